@@ -19,7 +19,8 @@ def get_model_flat_parameter(model):
 
 def get_model_flat_grad(model):
     tmp0 = _get_sorted_parameter(model)
-    ret = np.concatenate([x.grad.detach().cpu().numpy().reshape(-1) for x in tmp0])
+    # a parameter the loss does not depend on has .grad None: its gradient is zero
+    ret = np.concatenate([(np.zeros(x.numel()) if (x.grad is None) else x.grad.detach().cpu().numpy().reshape(-1)) for x in tmp0])
     return ret
 
 
@@ -53,7 +54,7 @@ def hf_model_wrapper(model):
             else:
                 loss.backward() #if no .grad_backward() method, it should be a normal torch.nn.Module
             # scipy.optimize.LBFGS does not support float32 @20221118
-            grad = np.concatenate([x.grad.detach().cpu().numpy().reshape(-1).astype(theta.dtype) for x in parameter_sorted])
+            grad = get_model_flat_grad(model).astype(theta.dtype)
         else:
             with torch.no_grad():
                 loss = model()
